@@ -33,6 +33,41 @@ TRANSLATED = {"C02", "C04", "C08", "C12", "C13", "C14", "C15", "C18", "C20"}
 FIXED_POINT = {"C08", "C18", "C05"}
 FIXED_POINT_EVERY_TIER = {"C18"}
 
+# Guard bits: the model driver appends ` g=<chars>` to the result line of these streams, one character per decidable
+# guard of the join theorems (1 holds, 0 fails, - the theorem's other hypotheses exclude the op, ? not evaluated), in
+# this order (lean/EG/Driver/Thick.lean `polyGuardBits` / `triGuardBits`; the Bool functions are proved equivalent to
+# the guards in lean/EG/Props/C01/GuardBits.lean and lean/EG/Props/C02/GuardBits.lean). The harness prints ` g=*`; the
+# token is stripped from both sides before the lines are compared and the driver's bits are tallied into the evidence
+# (coverage.guard_bits). A guard that fails is NOT a failure of the check: the guarded theorem does not apply to that
+# op, which is then covered by correspondence + oracle only.
+GUARD_BITS = {
+    "thick.polyline": ["PolyRectsInRange (Props/C01/Polyline.lean)",
+                       "PolyBBoxGuard (Props/C02/JoinsBBox.lean; n/a for width < 2)",
+                       "chainOK conjunct of PolyBBoxGuard (n/a for width < 2)"],
+    "thick.triangle": ["TriRectsInRange (Props/C01/Triangle.lean)",
+                       "TriTopGuard (Props/C02/JoinsBBox.lean)",
+                       "TriStrokeGuard (Props/C02/JoinsBBox.lean; n/a unless width >= 2 and alignment != Inside)",
+                       "adjOK x3 conjuncts of TriStrokeGuard (n/a unless width >= 2 and alignment != Inside)",
+                       "TriOutlineGuard (Props/C02/JoinsBBox.lean; n/a unless width >= 2, alignment = Inside and not collapsed)"],
+}
+GUARD_TOKEN = re.compile(r" g=(\S+)")
+
+
+def source_classes(pid):
+    """string literals `"Cxx:..."` of the harness sources whose prefix is this property, as (literal, regex):
+    `{}` of a format template matches anything"""
+    out = {}
+    src = os.path.join(HARNESS, "src")
+    for fn in sorted(os.listdir(src)):
+        if not fn.endswith(".rs"):
+            continue
+        for m in re.finditer(r'"(' + pid + r':[^"\\]*)"', open(os.path.join(src, fn)).read()):
+            lit = m.group(1)
+            if " " in lit:
+                continue
+            out.setdefault(lit, (fn, re.compile("^" + ".*".join(re.escape(x) for x in re.split(r"\{[^}]*\}", lit)) + "$")))
+    return out
+
 
 class Lock:
     def __init__(self, name):
@@ -279,7 +314,7 @@ def main():
     def harness_run(run_tier, outdir, features=None, ops_file=None, compare=True, timeout=7200):
         """build egv (optionally with cargo features, in its own target dir), run it, run the model
         driver on the same ops and diff. Returns a dict."""
-        res = {"dist": {}, "failures": [], "disagreements": [], "n_ops": 0, "n_compared": 0, "errors": [], "outdir": outdir}
+        res = {"dist": {}, "failures": [], "disagreements": [], "n_ops": 0, "n_compared": 0, "errors": [], "outdir": outdir, "guard_bits": {}}
         os.makedirs(outdir, exist_ok=True)
         for fn in ("ops.txt", "impl.txt", "oracle.txt", "dist.json", "model.txt"):
             pth = os.path.join(outdir, fn)
@@ -329,9 +364,24 @@ def main():
                 if mline == "skip":
                     continue
                 res["n_compared"] += 1
+                gm = GUARD_TOKEN.search(mline)
+                if gm:
+                    stream = ops[k].split(" ", 1)[0]
+                    names = GUARD_BITS.get(stream, [])
+                    gb = res["guard_bits"].setdefault(stream, {"ops": 0, "guards": {}})
+                    gb["ops"] += 1
+                    for i, ch in enumerate(gm.group(1)):
+                        name = names[i] if i < len(names) else f"bit {i}"
+                        g = gb["guards"].setdefault(name, {"holds": 0, "fails": 0, "not_applicable": 0, "not_evaluated": 0, "fails_samples": []})
+                        key = {"1": "holds", "0": "fails", "-": "not_applicable"}.get(ch, "not_evaluated")
+                        g[key] += 1
+                        if ch == "0" and len(g["fails_samples"]) < 3:
+                            g["fails_samples"].append(ops[k][:300])
+                    mline = GUARD_TOKEN.sub("", mline)
+                    impl[k] = GUARD_TOKEN.sub("", impl[k])
                 if mline != impl[k]:
                     if len([d for d in res["disagreements"] if d]) < 50:
-                        res["disagreements"].append({"op_index": k, "op": ops[k][:2000], "impl": impl[k][:2000], "model": mline[:2000], "outdir": outdir})
+                        res["disagreements"].append({"op_index": k, "op": ops[k][:2000], "impl": impl[k][:2000], "model": mline[:2000], "outdir": outdir, "features": features})
                     else:
                         res["disagreements"].append(None)
         return res
@@ -339,8 +389,10 @@ def main():
     outdir = os.path.join(work, "run")
     ops_file = None
     replay_features = None
+    replay_kind = None
     if replay:
         rj = json.load(open(replay))
+        replay_kind = rj.get("kind")
         os.makedirs(outdir, exist_ok=True)
         ops_file = os.path.join(outdir, "replay.ops")
         with open(ops_file, "w") as f:
@@ -355,11 +407,13 @@ def main():
     n_ops = main_run["n_ops"]
     n_compared = main_run["n_compared"]
     extra_runs = []
+    extra_dists = []
     # thorough: the same check against the `fixed_point` feature build where the property mentions it
     # (C18 names the fixed_point build in its statement: there it runs in every tier, at the tier's own scope)
     if not replay and pid in FIXED_POINT and (tier == "thorough" or pid in FIXED_POINT_EVERY_TIER):
         fp_tier = tier if pid in FIXED_POINT_EVERY_TIER else "quick"
         fp = harness_run(fp_tier, os.path.join(work, "run-fixed_point"), features="fixed_point")
+        extra_dists.append(fp.get("dist") or {})
         broken_theorems.extend(fp["errors"])
         failures.extend(fp["failures"])
         disagreements.extend(fp["disagreements"])
@@ -376,14 +430,32 @@ def main():
     # Oracle classes marked `tie-hypothesis` validate an ASSUMPTION of a theorem on the real code (e.g. the accuracy
     # of the f32 trigonometry that `sector_angular_partial` takes as a hypothesis), not a clause of the property text:
     # their failure breaks the tie (the property is no longer shown to hold) but is not a failing input of the property.
+    ops_cache = {}
+
+    def op_text(f):
+        """op line of a failure / disagreement record (each run has its own ops.txt)"""
+        d = f.get("outdir", outdir)
+        if d not in ops_cache:
+            try:
+                ops_cache[d] = open(os.path.join(d, "ops.txt")).read().split("\n")
+            except OSError:
+                ops_cache[d] = []
+        idx = f["op_index"]
+        return ops_cache[d][idx] if idx < len(ops_cache[d]) else "?"
+
     hyp = [f for f in failures if "tie-hypothesis" in f["class"]]
+    hyp_ops = []            # the ops on which a theorem hypothesis failed (smallest per class): part of the broken-tie replay
+    hyp_features = None
     if hyp:
         failures = [f for f in failures if "tie-hypothesis" not in f["class"]]
         seen_h = {}
         for f in hyp:
             seen_h.setdefault(f["class"], []).append(f)
         for cls, fs in seen_h.items():
-            broken_theorems.append(f"{cls}: theorem hypothesis not validated on {len(fs)} op(s), e.g. op #{fs[0]['op_index']}: {fs[0].get('detail', '')[:200]}")
+            fs.sort(key=lambda f: (len(op_text(f)), f["op_index"]))
+            broken_theorems.append(f"{cls}: theorem hypothesis not validated on {len(fs)} op(s), e.g. `{op_text(fs[0])[:200]}`: {fs[0].get('detail', '')[:200]}")
+            hyp_ops.append(op_text(fs[0]))
+            hyp_features = hyp_features or fs[0].get("features")
 
     # ---- 6 classify --------------------------------------------------------------------------
     known = []
@@ -398,19 +470,6 @@ def main():
                         known.append(k)
                 except Exception:
                     pass
-    ops_cache = {}
-
-    def op_text(f):
-        """op line of a failure / disagreement record (each run has its own ops.txt)"""
-        d = f.get("outdir", outdir)
-        if d not in ops_cache:
-            try:
-                ops_cache[d] = open(os.path.join(d, "ops.txt")).read().split("\n")
-            except OSError:
-                ops_cache[d] = []
-        idx = f["op_index"]
-        return ops_cache[d][idx] if idx < len(ops_cache[d]) else "?"
-
     known_seen = {}
     new_failures = []
     for f in failures:
@@ -457,17 +516,40 @@ def main():
             lines.append(f"VIOLATION property={pid} replay={path}")
             violations += 1
     if not new_failures and (broken_theorems or real_disagreements) and not replay:
+        # the ops that show the break: correspondence disagreements and ops on which a theorem hypothesis
+        # (`tie-hypothesis` class) was not validated; `--replay` of this file re-runs them
+        tie_ops = [d["op"] for d in real_disagreements if d][:3] + hyp_ops[:5]
         body = {"property": pid, "kind": "broken-tie", "broken_obligations": broken_theorems,
                 "correspondence_disagreements": [d for d in real_disagreements if d][:10],
-                "ops": [d["op"] for d in real_disagreements if d][:3],
+                "ops": tie_ops,
+                "features": hyp_features or next((d.get("features") for d in real_disagreements if d and d.get("features")), None),
                 "note": "no input on which the property itself fails was found by the oracle over this run's scope; "
-                        "the listed theorems / correspondence stream no longer check, so the property is no longer shown to hold"}
+                        "the listed theorems / correspondence stream no longer check, so the property is no longer shown to hold",
+                "replay_cmd": f"./check {pid} --replay <this file>"}
         path = write_replay(f"{stamp}-broken-tie.json", body)
         lines.append(f"VIOLATION property={pid} replay={path} no-failing-input-found")
+        violations += 1
+    elif not new_failures and (broken_theorems or real_disagreements) and replay and replay_kind == "broken-tie":
+        # replay of a broken-tie file: the same ops, the same obligations; still broken = still a violation
+        lines.append(f"VIOLATION property={pid} replay={replay} broken-tie-reproduced: "
+                     + "; ".join(broken_theorems[:3]) + (f"; {len(real_disagreements)} correspondence disagreement(s)" if real_disagreements else ""))
         violations += 1
     elif new_failures and (broken_theorems or real_disagreements):
         tie_notes.append("also broken: " + "; ".join(broken_theorems[:5]) + f"; {len(real_disagreements)} correspondence disagreement(s)")
 
+    # oracle classes: how often each class prefixed with this property (or unprefixed) was evaluated, and the
+    # `Cxx:` class literals of the harness sources that no op of this run evaluated (a class whose stream is not generated
+    # for its own property is dead; classes that exist only as the mechanism-suffixed name of a failure show up here too)
+    classes_evaluated = {c: n for c, n in (dist.get("classes_evaluated") or {}).items()
+                         if not re.match(r"C\d\d:", c) or c.startswith(pid + ":")}
+    classes_dead = []
+    if dist.get("classes_evaluated") is not None and not replay:
+        ev_names = set(dist["classes_evaluated"].keys())
+        for d in extra_dists:       # classes evaluated only by the `fixed_point` build count as evaluated
+            ev_names |= set((d.get("classes_evaluated") or {}).keys())
+        for lit, (fn, rx) in sorted(source_classes(pid).items()):
+            if not any(rx.match(c) for c in ev_names):
+                classes_dead.append(f"{lit} ({fn})")
     wall = time.time() - t0
     samples = dist.get("samples", [])[:6]
     for (n, _) in theorems[:6]:
@@ -504,6 +586,9 @@ def main():
             "oracle_failures_new": len(new_failures),
             "known_findings_seen": {c: k["count"] for c, k in known_seen.items()},
             "input_distribution": dist.get("counters", {}),
+            "guard_bits": main_run.get("guard_bits", {}),
+            "oracle_classes_evaluated": classes_evaluated,
+            "oracle_classes_not_evaluated": classes_dead,
             "translator": translate_info,
             "notes": tie_notes,
             "extra_runs": extra_runs,
